@@ -371,3 +371,69 @@ def register(reg):
                 ("never_suppresses_the_exception_of_the_traced_region", ("C02", "C15", "C05", "C03"), isinstance(c.result, VNone)),
                 ("hook_called_at_most_once_and_only_when_tracing", ("C15",), z3.If(F(c, c.self, "Trace.should_trace"), z3.BoolVal(len(hooks) == 1), z3.BoolVal(len(hooks) == 0))),
             ]
+
+    # ================================================================== default_ssl_context
+    @reg.intrinsic("ssl.create_default_context")
+    def create_default_context(it, st, args, kwargs, node):
+        st.counter += 1
+        v = VVal(z3.Const(f"ssl_context!{st.counter}", ValS))
+        it.emit(st, "ssl.create_default_context", node, value=v)
+        return v
+
+    @reg.intrinsic("certifi.where")
+    def certifi_where(it, st, args, kwargs, node):
+        return VStr(z3.String("certifi_where"))
+
+    reg.val_methods.setdefault("load_verify_locations", lambda it, st, recv, args, kwargs, node: NONE)
+    reg.module_heads = set(reg.module_heads) | {"certifi", "re"}
+
+    @reg.contract
+    class DefaultSSLContext(Contract):
+        """every call builds a NEW context: the connection classes configure ALPN by mutating the context they hold
+        (`set_alpn_protocols`), so a context shared between pools lets a pool with http2=False offer h2 (C10)"""
+        key = "httpcore._ssl.default_ssl_context"
+        props = ("C10",)
+        suspends = False
+        raises = []
+
+        def checks(self, c):
+            mk = c.events("ssl.create_default_context")
+            return [("returns_a_context_created_by_this_very_call", ("C10",), z3.And(z3.BoolVal(len(mk) == 1), c.eng.to_val(c.st, c.result).t == mk[0].data["value"].t) if mk else False)]
+
+    # ================================================================== AsyncHTTPProxy / AsyncSOCKSProxy constructors
+    POOL = "httpcore._async.connection_pool.AsyncConnectionPool"
+    POOL_ARGS = ("ssl_context", "max_connections", "max_keepalive_connections", "keepalive_expiry", "http1", "http2",
+                 "retries", "network_backend")
+
+    def proxy_pool_ctor(cls, extra_passthrough=()):
+        @reg.contract
+        class ProxyPoolInit(Contract):
+            """the legacy proxy-pool classes are connection pools: every pool-level argument they accept (limits, keep-alive
+            expiry, protocol switches, retries, back end, TLS context) reaches AsyncConnectionPool.__init__ unchanged - a
+            dropped keyword silently falls back to the pool's default (seed C09-w4-2: max_keepalive_connections)"""
+            key = cls + ".__init__"
+            props = ("C09", "C04", "C10", "C20")
+            suspends = False
+            params = {"proxy_url": "ref:" + URL, "proxy_auth": "none", "proxy_headers": "seq:hdr", "ssl_context": "val", "proxy_ssl_context": "val",
+                      "max_connections": "val", "max_keepalive_connections": "val", "keepalive_expiry": "val", "http1": "bool", "http2": "bool",
+                      "retries": "int", "local_address": "val", "uds": "val", "network_backend": "val", "socket_options": "val"}
+            raises = ["TypeError", "RuntimeError"]
+            raises_props = ()
+
+            def checks(self, c):
+                calls = c.events("call:" + POOL + ".__init__")
+                if len(calls) != 1:
+                    return [("initialises_the_pool_exactly_once", ("C09", "C04"), False)]
+                kw = calls[0].data["kwargs"]
+                e, st = c.eng, c.st
+                out = [("initialises_the_pool_exactly_once", ("C09", "C04"), True)]
+                for a in POOL_ARGS + tuple(extra_passthrough):
+                    got = kw.get(a)
+                    out.append((f"pool_argument_{a}_is_passed_on_unchanged", ("C09", "C04", "C10", "C20"),
+                                e.to_val(st, got).t == e.to_val(st, c.args[a]).t if got is not None else False))
+                return out
+
+        ProxyPoolInit.__name__ = "ProxyPoolInit_" + cls.rsplit(".", 1)[-1]
+
+    proxy_pool_ctor("httpcore._async.http_proxy.AsyncHTTPProxy")
+    proxy_pool_ctor("httpcore._async.socks_proxy.AsyncSOCKSProxy")
